@@ -278,10 +278,13 @@ func (r *DeviceAuthorizationState) GetAMR() []string {
 }
 
 func (r *DeviceAuthorizationState) GetAudience() []string {
-	if !slices.Contains(r.Audience, r.ClientID) {
-		r.Audience = append(r.Audience, r.ClientID)
+	if slices.Contains(r.Audience, r.ClientID) {
+		return r.Audience
 	}
-	return r.Audience
+	// do not append to r.Audience: the state is owned by the storage
+	audience := make([]string, 0, len(r.Audience)+1)
+	audience = append(audience, r.Audience...)
+	return append(audience, r.ClientID)
 }
 
 func (r *DeviceAuthorizationState) GetAuthTime() time.Time {
